@@ -3,7 +3,7 @@ package router
 // C04: answers are never mixed up between concurrent queries. Real router with
 // a real upstream transport (pipelined TCP / pipelined UDP / one-at-a-time TCP)
 // over the scripted dialer, two clients on different listeners, cache off / on
-// / tiny; all orders of query arrivals and upstream reply deliveries.
+// / tiny; all orders of query arrivals and upstream reply deliveries, from a fresh router and after an unsupported query.
 
 import (
 	"fmt"
@@ -92,6 +92,25 @@ func c04Scenario(c *choice.Ctx, rep *report.R, depth int) {
 			}
 		}
 		panic(n)
+	}
+	// non-initial state: another client first sent a query the proxy answers itself (RD=0 -> NOTIMP, two questions -> NOTIMP): the
+	// objects of that exchange have gone back to their pools before the concurrent queries start
+	if pre := c.Choose(3, "prelude"); pre > 0 {
+		pc := seamByName("tcp").open(v)
+		pq := refdns.Query(0x04F0, refdns.N("prelude", "example", "test"), 1, 1)
+		if pre == 1 {
+			pq.Bits &^= refdns.BitRD
+		} else {
+			pq.Q = append(pq.Q, refdns.Q{Name: refdns.N("second", "example", "test"), Type: 1, Class: 1})
+		}
+		pc.send(pq)
+		wait()
+		if pc.count() != 1 {
+			fail("prelude-unanswered", "the unsupported prelude query got no response")
+		}
+		pc.close()
+		wait()
+		trace = append(trace, fmt.Sprintf("prelude%d", pre))
 	}
 	clients := []c03Client{seamByName(pair[0]).open(v), seamByName(pair[1]).open(v)}
 	owner := []int{0, 1, 0} // query i is sent by client owner[i]
@@ -285,7 +304,7 @@ func TestVerifC04(t *testing.T) {
 	rep := report.New("C04 answers never mixed up")
 	defer rep.Write()
 	depth := report.ParamInt("DEPTH", 7)
-	rep.Rule = fmt.Sprintf("E3: real router + real upstream transport %v over the scripted dialer + cache {off, ample, 200 bytes (evictions)}; listener pairs %v; question triples %v over {one/IN/A, two/IN/A, one/CH/A, one/IN/AAAA, ONE (case variant)}, query 0 and 2 from the first client, query 1 from the second; "+
+	rep.Rule = fmt.Sprintf("E3: real router + real upstream transport %v over the scripted dialer + cache {off, ample, 200 bytes (evictions)}; start state {fresh router, after a query answered NOTIMP by the proxy itself (RD=0 / two questions)}; listener pairs %v; question triples %v over {one/IN/A, two/IN/A, one/CH/A, one/IN/AAAA, ONE (case variant)}, query 0 and 2 from the first client, query 1 from the second; "+
 		"all sequences of length <=%d over {send next query, deliver the reply to any outstanding upstream query (any order on pipelined transports), advance 1 s, advance 6 s / 46 s (bounded number per execution)}; then every outstanding reply is delivered; "+
 		"oracle after every event: every client-visible response to query i carries i's own question and the answer the upstream produced for exactly that (name, class, type) - fresh or from cache -, no poison/uninit bytes; finally exactly one response per query",
 		c04Upstreams, c04Pairs, c04Triples, depth)
